@@ -178,6 +178,10 @@ def differential(src, cfg, mkenv=default_env, globals_cmp=True, injected=None, k
         return Outcome("ood:src-syntax", str(e)[:80])
     except (RecursionError, MemoryError):
         return Outcome("ood:src-resource")
+    except SystemError as e:
+        # the reference interpreter's own compiler gave up (measured: CPython 3.12 `_PyST_GetScope(name='__class__') failed`
+        # for a class body that binds and reads the spelling `super`): no reference, no verdict
+        return Outcome("ood:src-compiler-internal-error", str(e)[:80])
     g1, log1 = mkenv()
     inj = set(g1) if injected is None else set(injected)
     b1 = io.StringIO()
